@@ -229,11 +229,48 @@ def run_int_to_note(case):
         S.count("int_both_refused")                 # either documented error type is accepted
 
 
+LH_NAMES = ["C", "B#", "Cb", "F##", "Abb", "E#b", "G", "Db#b"]
+
+
+def run_long_history(case):
+    """case = number of accidentals k: in a freshly loaded notes module a list of questions is asked, then every name with up to
+    k accidentals goes through note_to_int / is_valid_note, then the same questions again -- same answers, and the right ones."""
+    import importlib
+    S = engine.S
+    importlib.reload(notes)
+
+    def ask():
+        out = []
+        for nm in LH_NAMES:
+            out.append((notes.note_to_int(nm), notes.is_valid_note(nm), notes.reduce_accidentals(nm), notes.remove_redundant_accidentals(nm),
+                        notes.is_enharmonic(nm, "C"), notes.augment(nm), notes.diminish(nm)))
+        return out
+
+    first = ask()
+    sweep = P.names(case)
+    for nm in sweep:
+        notes.note_to_int(nm)
+        notes.is_valid_note(nm)
+    S.trans(2 * len(sweep) + 14 * len(LH_NAMES))
+    again = ask()
+    for nm, a, b in zip(LH_NAMES, first, again):
+        if a != b:
+            S.problem("the single-name functions on %r asked again after %d other names were converted" % (nm, len(sweep)), list(a), list(b))
+            break
+        if a[0] != P.pc(nm) or a[1] is not True or a[3] != P.canonical(nm) or a[4] is not (P.pc(nm) == 0):
+            S.problem("the single-name functions on %r at the start of a fresh process" % nm,
+                      {"pc": P.pc(nm), "canonical": P.canonical(nm)}, list(a))
+            break
+    S.count("long_histories")
+    S.outcome(("long_history", case, len(sweep)))
+
+
 CLAUSES = {
     "names": run_name,
     "malformed": run_malformed,
     "enharmonic": run_enharmonic,
     "int_to_note": run_int_to_note,
+    "long_history": run_long_history,
 }
 
 
@@ -295,6 +332,8 @@ def explore(ctx):
                 longs += [L + "#" * n, L + "b" * n, L + "#b" * (n // 2), L + "b" * n + "#" * (n - 1)]
         ctx.bound("very_long_names", "%d names of 40..7999 accidentals" % len(longs))
         ctx.serial("names", longs)
+    if ctx.want("long_history"):
+        ctx.product("long_history", [4, 6, 8], lambda k: [k])
     if ctx.want("enharmonic"):
         _PAIR_NAMES[0] = P.names(kp)
         ctx.bound("enharmonic_pairs", len(_PAIR_NAMES[0]) ** 2)
